@@ -30,7 +30,9 @@ TECHNIQUE = ("Coq proof over ALL schedules of an interleaving semantics (ThreadP
 RULE = ("rc cases: N in {2,4,8,16} workers x K in 50..100000 pseudo-random get/put on 1..4 shared nodes, three ways of "
         "releasing the creator's reference (after join / racing / handed to a worker), 0..3 extra references checked exactly "
         "after the join; last cases: N threads own the N (= all) references of a fresh node and release them at the same "
-        "moment, many rounds; sched: the model driver explores ALL schedules of small configurations with the regenerated programs; "
+        "moment, many rounds; iso cases: N threads with NO shared object, each with its own thread-local double format (%.0f, %.3g, %.17g, unset, %.2f), "
+        "serialise under 6 flag words / re-parse with an own tokener / deep-copy+equal / json_pointer get+set / json_patch their own trees "
+        "in a loop, every text compared with what the same thread computed alone; sched: the model driver explores ALL schedules of small configurations with the regenerated programs; "
         "cont cases: one thread hands references to its own array/object and lets the library release them "
         "(put of the container, array_del_idx, array_put_idx, object_del, object_add replacing) while N workers get/put the "
         "member directly; seed cases: N threads released by a barrier on the first use of the key hash in a fresh process, "
@@ -176,6 +178,12 @@ def gen(rng, tier):
                         {"kind": "rc-" + mode}))
     if quick:
         out.append(("thr rc 16 100000 1 race 1 %d" % rng.randrange(1, 1 << 20), {"kind": "rc-race"}))
+    # --- no shared object at all: own thread-local double format, own trees; serialise / parse /
+    #     deep-copy / compare / pointer / patch in a loop (races on library-internal state)
+    for n in (2, 4, 8, 16):
+        for _ in range(2 if quick else 8):
+            out.append(("thr iso %d %d %d %d" % (n, rng.choice([50, 150, 300]) if n < 16 else rng.choice([30, 60]),
+                                                rng.choice([10, 40, 120]), rng.randrange(1, 1 << 20)), {"kind": "iso"}))
     # --- the LAST references released concurrently: N threads own the N (= all) references
     for n, rounds in LAST_ROUNDS:
         for _ in range(1 if quick else 3):
@@ -256,6 +264,14 @@ def oracle(line, meta, impl):
         return None
     if a[1] == "sched":
         return None if d.get("kind") == "sched" else ("malformed", "unexpected driver output: " + impl[:120])
+    if a[1] == "iso":
+        n = int(a[2])
+        if d.get("kind") != "iso" or d.get("threads") != n:
+            return ("malformed", "unexpected driver output: " + impl[:120])
+        if d["diff"] != 0:
+            return ("isolated-threads-differ", "%d threads on DISJOINT objects, each with its own thread-local double format: %d texts "
+                    "(serialise / re-parse / deep copy / pointer / patch) differ from what the same thread computed alone" % (n, d["diff"]))
+        return None
     if a[1] == "last":
         n, r = int(a[2]), int(a[3])
         if d.get("kind") != "last" or d.get("rounds") != r:
@@ -317,6 +333,8 @@ def nontrivial(line, meta, impl):
         return tuple(a[1:])
     if a[1] == "last":
         _stats["ops"] += int(a[2]) * int(a[3])
+        return tuple(a[1:])
+    if a[1] == "iso":
         return tuple(a[1:])
     if a[1] == "sched":
         return None
@@ -431,6 +449,9 @@ def search(rng, broken_lines):
         for n in (2, 8, 16):
             for _ in range(2):
                 out.append(("thr cont %d 20000 %s 10000 %d" % (n, op, rng.randrange(1, 1 << 20)), {"kind": "cont-" + op}))
+    for n in (2, 4, 16):
+        for _ in range(3):
+            out.append(("thr iso %d 400 60 %d" % (n, rng.randrange(1, 1 << 20)), {"kind": "iso"}))
     for n, rounds in LAST_ROUNDS:
         for _ in range(3):
             out.append(("thr last %d %d %d" % (n, rounds * 3, rng.randrange(1, 1 << 20)), {"kind": "last"}))
